@@ -263,9 +263,9 @@ func main() {
 			engineErrs = append(engineErrs, r.Fn+": "+r.Err)
 		}
 	}
-	timeout := 20 * time.Second
+	timeout := 60 * time.Second
 	if *tier == "thorough" {
-		timeout = 120 * time.Second
+		timeout = 300 * time.Second
 	}
 	if s := os.Getenv("VERIF_TIMEOUT"); s != "" {
 		if n, err := strconv.Atoi(s); err == nil {
